@@ -217,7 +217,13 @@ def gen_hier(rng):
     return {nm: ([] if nm == "root" else ["root"]) for nm in names}
 
 
-def gen_leaf(rng, bracket=False):
+NARROW = [("environment", "A"), ("environment", "B"), ("script",)]
+
+
+def gen_leaf(rng, bracket=False, narrow=False):
+    if narrow:
+        path = rng.choice(NARROW)
+        return path, rng.choice(["v1", "v2", " v3 "])
     if rng.random() < 0.4:
         k = rng.choice(list(TOP))
         return (k,), rng.choice(list(RAW[TOP[k]]))
@@ -240,14 +246,14 @@ def build(leaf_list):
     return d
 
 
-def gen_setting(rng, flavour):
+def gen_setting(rng, flavour, narrow=False):
     """flavour: single | multi | empty | invalid | bracket"""
     if flavour == "single":
-        return build([gen_leaf(rng)])
+        return build([gen_leaf(rng, narrow=narrow)])
     if flavour == "bracket":
         return build([gen_leaf(rng, bracket=True)])
     if flavour == "multi":
-        return build([gen_leaf(rng) for _ in range(rng.randint(2, 4))])
+        return build([gen_leaf(rng, narrow=narrow) for _ in range(rng.randint(2, 4))])
     if flavour == "empty":
         c = rng.random()
         if c < 0.3:
@@ -266,10 +272,13 @@ def gen_setting(rng, flavour):
     ])
 
 
-def gen_case(rng, mix):
-    """mix: weights of setting flavours"""
+def gen_case(rng, mix, narrow=False):
+    """mix: weights of setting flavours; narrow: few setting paths, namespaces
+    mostly from one task's ancestry (many precedence conflicts)"""
     parents = gen_hier(rng)
     names = list(parents)
+    focus = max(rng.sample(names, min(3, len(names))), key=lambda n: len(py_mro(parents, n)))
+    lineage = py_mro(parents, focus)
     flav = [f for f, w in mix.items() for _ in range(w)]
     hist, used_points = [], ["1"]
     for _ in range(rng.randint(1, 7)):
@@ -278,12 +287,15 @@ def gen_case(rng, mix):
             pts = [rng.choice(POINTS_OK) for _ in range(rng.randint(1, 3))]
             if rng.random() < 0.15:
                 pts.insert(rng.randrange(len(pts) + 1), rng.choice(POINTS_ODD))
-            nss = [rng.choice(names) for _ in range(rng.randint(1, 3))]
+            pool = lineage if narrow and rng.random() < 0.8 else names
+            nss = [rng.choice(pool) for _ in range(rng.randint(1, 3))]
+            if narrow:
+                pts = [rng.choice(["*", "*", "2", "3"]) for _ in range(rng.randint(1, 2))]
             if rng.random() < 0.12:
                 nss.insert(rng.randrange(len(nss) + 1), rng.choice(["nope", "AAA", "zzz"]))
             if rng.random() < 0.05:
                 nss = [n for n in nss if n not in names] or ["nope"]
-            sts = [gen_setting(rng, rng.choice(flav)) for _ in range(rng.choice([1, 1, 1, 2, 3]))]
+            sts = [gen_setting(rng, rng.choice(flav), narrow) for _ in range(rng.choice([1, 1, 1, 2, 3]))]
             used_points += [p for p in pts if std_point(p) not in (None, "*")]
             hist.append({"op": "put", "points": pts, "namespaces": nss, "settings": sts})
         elif c < 0.78:
@@ -291,7 +303,7 @@ def gen_case(rng, mix):
             nss = [rng.choice(names + ["nope"]) for _ in range(rng.choice([0, 0, 1, 2]))]
             cancel = None
             if rng.random() < 0.5:
-                cancel = [build([gen_leaf(rng) for _ in range(rng.choice([1, 1, 2]))])
+                cancel = [build([gen_leaf(rng, narrow=narrow) for _ in range(rng.choice([1, 1, 2]))])
                           for _ in range(rng.choice([1, 1, 2]))]
                 if rng.random() < 0.1:
                     cancel.append({rng.choice(list(SECT)): {}})
@@ -302,9 +314,9 @@ def gen_case(rng, mix):
             hist.append({"op": "flush"})
     queries = []
     for _ in range(rng.randint(1, 3)):
-        static = build([gen_leaf(rng) for _ in range(rng.randint(0, 3))])
-        queries.append({"task": rng.choice(names), "cycle": str(int(rng.choice(used_points))),
-                        "static": static})
+        static = build([gen_leaf(rng, narrow=narrow) for _ in range(rng.randint(0, 3))])
+        task = rng.choice(lineage[:2]) if narrow and rng.random() < 0.8 else rng.choice(names)
+        queries.append({"task": task, "cycle": str(int(rng.choice(used_points))), "static": static})
     return {"parents": parents, "hist": hist, "queries": queries}
 
 
@@ -411,7 +423,7 @@ class BroadcastStream(Stream):
         n = 260 if tier == "quick" else 7000
         for i in range(n):
             mix = self.MIX_SINGLE if i % 2 == 0 else self.MIX_ALL
-            c = gen_case(rng, mix)
+            c = gen_case(rng, mix, narrow=(i % 3 != 0))
             c["kind"] = case_kind(c)
             cases.append(c)
         for _ in range(6 if tier == "quick" else 100):
